@@ -8,6 +8,7 @@ import (
 	"fmt"
 	"go/token"
 	"go/types"
+	"math"
 	"runtime"
 	"strings"
 
@@ -114,6 +115,78 @@ func convGuard(fr *frame, sx sym, dk types.BasicKind) {
 	if !fr.i.X.decide(in) {
 		unsupported("float to integer conversion out of range (or NaN) is feasible in %s", fr.where())
 	}
+}
+
+// exactIntQuotient rewrites int(round(float64(x)/c)) — round being nothing (truncation), math.Ceil,
+// math.Floor or math.Trunc, x a signed 64-bit integer term whose interval lies inside +-2^51 and c a
+// positive integer constant below 2^51 — into the integer quotient it denotes. The rewrite is exact:
+// float64(x) and c are exact; x = n*c + r with 0 < r < c puts the real quotient at distance >= 1/c from
+// the integers n and n+1 while the correctly rounded quotient is within |x/c|*2^-53 < 1/c of it, so the
+// rounded quotient lies strictly between the same two integers (and is exact when r = 0).
+func exactIntQuotient(fr *frame, sx sym, dk types.BasicKind) (value, bool) {
+	t := sx.t
+	mode := smt.RTZ
+	if t.Op == smt.OFRound {
+		mode = t.Aux
+		t = t.A[0]
+	}
+	if mode != smt.RTZ && mode != smt.RTP && mode != smt.RTN {
+		return nil, false
+	}
+	if t.Op != smt.OFDiv || t.A[0].Op != smt.OFFromS || !t.A[1].IsConst() || t.A[0].A[0].W != 64 {
+		return nil, false
+	}
+	c := t.A[1].Float()
+	const lim = float64(1 << 51)
+	if !(c >= 1 && c < lim) || c != math.Trunc(c) {
+		return nil, false
+	}
+	x := t.A[0].A[0]
+	iv := fr.i.X.intervals().Of(x)
+	if !iv.OK || iv.Lo <= -lim || iv.Hi >= lim {
+		return nil, false
+	}
+	ci := smt.BVS(int64(c), 64)
+	zero := smt.BVS(0, 64)
+	var q *smt.Term
+	switch mode {
+	case smt.RTZ:
+		q = smt.SDiv(x, ci)
+	case smt.RTP:
+		q = smt.Ite(smt.Slt(zero, x), smt.SDiv(smt.Add(x, smt.BVS(int64(c)-1, 64)), ci), smt.SDiv(x, ci))
+	default:
+		q = smt.Ite(smt.Slt(x, zero), smt.SDiv(smt.Sub(x, smt.BVS(int64(c)-1, 64)), ci), smt.SDiv(x, ci))
+	}
+	w, _ := kindWidth(dk)
+	if w < 64 {
+		q = smt.Extract(q, w-1, 0)
+	}
+	return mkSym(q, dk), true
+}
+
+// exactFPBool replaces a float comparison (possibly negated) whose operands are exact dyadic
+// computations by the integer comparison it denotes (smt.ExactFP).
+func exactFPBool(fr *frame, rs sym) value {
+	t, neg := rs.t, false
+	if t.Op == smt.OBNot {
+		t, neg = t.A[0], true
+	}
+	switch t.Op {
+	case smt.OFLt, smt.OFLe, smt.OFEq:
+	default:
+		return rs
+	}
+	if fr.i.X == nil {
+		return rs
+	}
+	q := fr.i.X.intervals().ExactFP(t)
+	if q == nil {
+		return rs
+	}
+	if neg {
+		q = smt.Not(q)
+	}
+	return mkSym(q, types.Bool)
 }
 
 func (i *interpreter) initAllowed(p string) bool {
